@@ -85,8 +85,13 @@ def _case(draw):
             k = min(left, draw(st.sampled_from([1, 1, 2, 3])))
             groups.append(k)
             left -= k
-    return {'frontend': fe, 'framing': framing, 'single': single, 'hosted': hosted, 'ignore_missing_slaves': ignore,
+    case = {'frontend': fe, 'framing': framing, 'single': single, 'hosted': hosted, 'ignore_missing_slaves': ignore,
             'broadcast_enable': bcast, 'requests': reqs, 'groups': groups}
+    if fe in frontends.STREAM and framing != 'tls' and draw(st.integers(0, 2)) == 0:
+        # the same request stream cut at arbitrary byte positions, with idle receive time-outs while no frame is pending
+        case['cuts'] = draw(gens.cuts())
+        case['idle'] = draw(st.lists(st.integers(0, 12), min_size=0, max_size=3))
+    return case
 
 
 def strategy(tier):
@@ -125,6 +130,20 @@ def run_case(case):
         script.append((0, b''.join(frames[i:i + k])))
         i += k
     multi_read = any(k > 1 for k in case['groups'])
+    if case.get('cuts'):
+        labels.append('byte-level-cuts')
+        bounds, acc = set([0]), 0
+        for fr_ in frames:
+            acc += len(fr_)
+            bounds.add(acc)
+        script, done = [], 0
+        idle = set(case.get('idle') or [])
+        for n_, chunk in enumerate(c for c in gens.apply_cuts(b''.join(frames), case['cuts']) if c):
+            if n_ in idle and done in bounds:
+                script.append((0, None))
+            script.append((0, chunk))
+            done += len(chunk)
+        multi_read = True
     ctx = make_context(single, hosted)
     res = frontends.run(fe, framing, ctx, script, ignore_missing_slaves=ignore, broadcast_enable=bcast)
     discs = []
